@@ -806,7 +806,9 @@ def tasks_for(thorough):
         T.append({"block": block, "cfg": cfg, "method": method, "pool": pool, "alphabet": alphabet, "L": L,
                   "collapse": collapse})
 
-    LA, LB, LC, LD, LX = (5, 3, 5, 4, 3) if thorough else (4, 2, 4, 3, 2)
+    # (block B keeps length 2 in both tiers: 116k configurations; the thorough tier adds block B3, length 3 over the
+    # whole alphabet on the configurations where at most one per-category budget is set)
+    LA, LB, LC, LD, LX = (5, 2, 5, 4, 3) if thorough else (4, 2, 4, 3, 2)
     budgets = list(itertools.product(BUDGET, repeat=4))
     # A: budget arithmetic in depth — total x connect x read x status x other, deep scripts over CORE
     for total in TOTALS:
@@ -824,6 +826,17 @@ def tasks_for(thorough):
                             for pool in POOLS:
                                 add("B", make_cfg(total, *b, allowed=a, forcelist=fl, raise_on_status=ros,
                                                   respect=resp), m, pool, FULL, LB)
+    if thorough:
+        one_set = [b for b in budgets if sum(x is not None for x in b) <= 1]
+        for total in (False, 1, 2, None):
+            for b in one_set:
+                for (m, a) in GATES_DEEP:
+                    for fl in ([], [500]):
+                        for ros in (True, False):
+                            for resp in (True, False):
+                                for pool in POOLS:
+                                    add("B3", make_cfg(total, *b, allowed=a, forcelist=fl, raise_on_status=ros,
+                                                       respect=resp), m, pool, FULL, 3)
     # C: sleeping — backoff triple x respect flag x forcelist over long runs (budgets never bind)
     for total in (None, 5):
         for bo in BACKOFFS:
